@@ -315,6 +315,23 @@ def R4_swap_transfers(run):
                 mp, why = cfg.must_pass_call(fn, bi) if t["d"]["l"] != 0 else (True, "")
                 run.check("R4", "%s-result:%s[a_to_b=%d]" % (short, callee_path(t).rsplit("::", 1)[-1], ab), mp or cfg.result_ok_edge(fn, bi) is not None,
                           "%s drops the result of %s" % (path, callee_path(t)), loc=fn.loc(t["l"]), detail="`?`")
+    # whatever the swap computed is applied whole: the pool update and both token movements lie on every successful path of the
+    # wrappers (the swap loop has already written the crossed ticks; a wrapper that returns early on some result leaves ticks
+    # flipped against a pool that never moved)
+    for path, n_upd in (("util::swap_utils::update_and_swap_whirlpool", 1), ("util::v2::swap_utils::update_and_swap_whirlpool_v2", 1),
+                        ("util::v2::swap_utils::update_and_two_hop_swap_whirlpool_v2", 2)):
+        fn = facts.need_fn(path)
+        pvw = prov_of(fn)
+        ups = {}
+        for (bi, t, a) in calls_to(fn, ends("Whirlpool::update_after_swap")):
+            ups.setdefault(sh(a[0], 40), []).append(bi)
+        ok = len(ups) == n_upd and all(not cfg.success_reach(fn, 0, cut_blocks=bs) for bs in ups.values())
+        run.check("R4", "applies-always:update_after_swap@" + path.rsplit("::", 1)[-1], ok, "%s can return successfully without update_after_swap on %s" % (path, "each pool" if n_upd == 2 else "the pool"),
+                  loc=fn.loc(), detail="update_after_swap on every successful path (%d pool%s)" % (n_upd, "s" if n_upd > 1 else ""))
+        for kind, pred in (("deposit", lambda p: p.rsplit("::", 1)[-1].startswith("transfer_from_owner_to_vault")), ("withdrawal", lambda p: p.rsplit("::", 1)[-1].startswith("transfer_from_vault_to_owner"))):
+            bs = [bi for (bi, t, a) in calls_to(fn, pred)]
+            run.check("R4", "applies-always:%s@%s" % (kind, path.rsplit("::", 1)[-1]), bool(bs) and not cfg.success_reach(fn, 0, cut_blocks=bs),
+                      "%s can return successfully without the %s" % (path, kind), loc=fn.loc(), detail="%s on every successful path" % kind)
     # v2 two-hop
     fn = facts.need_fn("util::v2::swap_utils::update_and_two_hop_swap_whirlpool_v2")
     run.touch(fn)
